@@ -100,3 +100,15 @@ Theorem C15_form_factor_cache_snapshot_refuted :
   snd (get_sf_snapshot Z tag_is_zero tag (fst (get_sf_snapshot Z tag_is_zero tag (empty Z 0) (26, 0))) (26, 3))
   <> tag 26 3.
 Proof. exact snapshot_refuted. Qed.
+
+(* several reflections on one calculator object: every calculate_* entry point installs its reflection (and the addends
+   in force) through set_stol2_and_scattering_factors, which empties the cache; then EVERY history of resets and calls
+   returns, for each call, the value of its (element, charge) in the world installed last - nothing from an earlier
+   reflection or earlier addends survives *)
+Theorem C15_form_factor_cache_histories :
+  forall (V W : Type) (vzero : V) (is_zero : V -> bool) (wval : W -> Z -> Z -> V), is_zero vzero = true ->
+  forall ops w0, crun V W vzero is_zero wval (w0, empty V vzero) ops = cspec V W wval w0 ops.
+Proof.
+  intros V W vzero is_zero wval Hz ops w0. apply crun_correct; [exact Hz|]. apply empty_ok. exact Hz.
+Qed.
+Print Assumptions C15_form_factor_cache_histories.
